@@ -341,6 +341,16 @@ def check_ioapi(case):
     if zdims:
         r.label('ioapi-zipped-rowcol')
     r.nontrivial = True
+    # descriptive attributes (not the defaults derived from the variable
+    # name): they must be carried over like any other attribute
+    descr = {}
+    for i, name in enumerate(mod.varnames):
+        v = f.variables[name]
+        descr[name] = dict(long_name=('LN %d %s' % (i, name))[:16].ljust(16),
+                           units=('unit%d' % i).ljust(16),
+                           var_desc=('description of %s' % name).ljust(80))
+        for k, val in descr[name].items():
+            setattr(v, k, val)
     ok, out = guard(r, 'ioapi-slice-raises',
                     lambda: f.sliceDimensions(**kw))
     if not ok:
@@ -365,6 +375,12 @@ def check_ioapi(case):
                           bits=True, check_dtype=False)
         if msg:
             r.fail('ioapi-var-data', msg)
+        for k, val in descr[name].items():
+            got = getattr(ov, k, None)
+            if got != val:
+                r.fail('ioapi-var-attrs', 'variable %s attribute %s = %r '
+                       'after slicing, was %r' % (name, k, got, val),
+                       klass=k)
     # time flags: rows follow the TSTEP selection exactly
     if 'TFLAG' in out.variables:
         tf = np.asarray(out.variables['TFLAG'][...])
